@@ -336,3 +336,27 @@ func HarnessC11Split() {
 	verifReach("compared")
 	verifCheckf(n == want, "number-of-untrusted-reports-differs", src)
 }
+
+// HarnessC11StarLiteral: ['*'] is an ordinary property access. A documented
+// path whose array steps are spelled ['*'] (instead of .* or [n]) denotes no
+// untrusted input.
+func HarnessC11StarLiteral() {
+	p := verifUntrustedPaths[verifChoose("path", len(verifUntrustedPaths))]
+	src := "github"
+	stars := 0
+	for _, seg := range strings.Split(p, ".")[1:] {
+		if seg == "*" {
+			src += "['*']"
+			stars++
+		} else {
+			src += "." + seg
+		}
+	}
+	if stars == 0 {
+		return
+	}
+	n, _, ok := verifUntrustedReports(src, true)
+	verifCheckf(ok, "generated-expression-does-not-parse", src)
+	verifReach("compared")
+	verifCheckf(n == 0, "number-of-untrusted-reports-differs", src)
+}
